@@ -894,6 +894,12 @@ func mkFBin(op Op, x, y *Term) *Term {
 			return mkFConst(a / b)
 		}
 	}
+	if x.op == OpIte && iteOfConsts(x, 6) && (y.isConst() || (y.op == OpIte && iteOfConsts(y, 6))) {
+		return liftBin(x, func(l *Term) *Term { return mkFBin(op, l, y) })
+	}
+	if y.op == OpIte && iteOfConsts(y, 6) && x.isConst() {
+		return liftBin(y, func(l *Term) *Term { return mkFBin(op, x, l) })
+	}
 	return tt.mk(op, SFP64, 0, "", x, y)
 }
 
@@ -908,6 +914,9 @@ func mkFUn(op Op, x *Term) *Term {
 		case OpFSqrt:
 			return mkFConst(math.Sqrt(a))
 		}
+	}
+	if x.op == OpIte && iteOfConsts(x, 6) {
+		return liftBin(x, func(l *Term) *Term { return mkFUn(op, l) })
 	}
 	return tt.mk(op, SFP64, 0, "", x)
 }
@@ -930,6 +939,9 @@ func mkFCmp(op Op, x, y *Term) *Term {
 	if y.op == OpIte && x.isConst() && iteOfFConsts(y, 6) {
 		return liftCmp(y, func(l *Term) *Term { return mkFCmp(op, x, l) })
 	}
+	if x.op == OpIte && y.op == OpIte && iteOfConsts(x, 6) && iteOfConsts(y, 6) {
+		return liftCmp(x, func(l *Term) *Term { return mkFCmp(op, l, y) })
+	}
 	return tt.mk(op, SBool, 0, "", x, y)
 }
 
@@ -938,6 +950,17 @@ func iteOfFConsts(t *Term, d int) bool { return iteOfConsts(t, d) }
 func mkSIToFP(x *Term) *Term {
 	if x.isConst() {
 		return mkFConst(float64(sx(x.sort, x.val)))
+	}
+	if x.op == OpIte && iteOfConsts(x, 6) {
+		return liftBin(x, mkSIToFP)
+	}
+	if x.vs != nil && len(x.vs) <= 16 {
+		// small value set: an ITE chain of constants keeps floating point out of the solver
+		r := mkFConst(float64(sx(x.sort, x.vs[len(x.vs)-1])))
+		for i := len(x.vs) - 2; i >= 0; i-- {
+			r = mkIte(mkEq(x, mkConst(x.sort, x.vs[i])), mkFConst(float64(sx(x.sort, x.vs[i]))), r)
+		}
+		return r
 	}
 	return tt.mk(OpSIToFP, SFP64, 0, "", x)
 }
@@ -952,6 +975,9 @@ func mkUIToFP(x *Term) *Term {
 func mkFPToSI(x *Term, to Sort) *Term {
 	if x.isConst() {
 		return mkConst(to, uint64(int64(x.fval())))
+	}
+	if x.op == OpIte && iteOfConsts(x, 6) {
+		return liftBin(x, func(l *Term) *Term { return mkFPToSI(l, to) })
 	}
 	return tt.mk(OpFPToSI, to, 0, "", x)
 }
